@@ -74,6 +74,11 @@ CLAIMED = {
          "model effect, cached variants fill-mark-replay without yielding while storing, remote/local and p_o/s_p twins, IRI bindings cornered "
          "by binding type, both passes receive the same options. Equality with local extraction, replay fidelity and query counts are NOT decided", "4 C15",
          "value-flow path parity, information-flow policy, statement-order lint, twin comparison, decision table, call-site agreement lint (R-PLUMB, R-EFFECT, R-ORDER, R-TWIN, R-TABLE)"),
+ "C05": ("structural closedness / well-formedness clauses decided for all inputs: label producers receive the configured namespace at every call "
+         "site, drop-shape/drop-references pairing in every direction iterated to a fixpoint, references only for instances, guarded prefix "
+         "insertion, total emission loops and a loss-free buffered writer, one sh:path per property shape, label/token rendering tables. Parsing "
+         "under the ShExC grammar for every IRI and label uniqueness are not decided", "4 C05",
+         "call-site forwarding lint over value-flow, ordering/pairing lints, guard-dominance lint, loop-totality, emission tables by abstract evaluation (R-PLUMB, R-ORDER, R-GUARD, R-LOOP, R-EMIT, R-TABLE, R-TWIN)"),
 }
 NA_REASON = {
  "C08": "relates the outputs of different parsers (rdflib readers, two hand-written scanners, TSV splitter, decompressors) on "
